@@ -34,11 +34,12 @@ impl Instrument for StageProbe {
             for q in b {
                 let r = std::panic::catch_unwind(std::panic::AssertUnwindSafe(|| apply_input_plugins(q, &app.input_plugins)));
                 match r {
-                    Ok(Ok(v)) => {
-                        per.push(json!(v.len()));
-                        processed.extend(v);
+                    // number of generated queries that reach the search stage (the isolated run returns
+                    // their responses first, then the error responses of the rejected ones)
+                    Ok((ok, _errors)) => {
+                        per.push(json!(ok.len()));
+                        processed.extend(ok);
                     }
-                    Ok(Err(_)) => per.push(json!("plugin_error")),
                     Err(_) => per.push(json!("panic")),
                 }
             }
@@ -216,10 +217,8 @@ pub fn judge(case: &Case, obs: &Obs) -> (Vec<Violation>, BTreeMap<String, u64>, 
         let mut expected_search_stage: Vec<Value> = vec![];
         for (qi, _q) in batch.iter().enumerate() {
             let rs = refs[qi].clone().unwrap();
-            let is_plugin_err = stage.get(bi).and_then(|s| s.get(qi)).map_or(false, |s| s.is_string());
-            if !is_plugin_err {
-                expected_search_stage.extend(rs.clone());
-            }
+            let n_ok = stage.get(bi).and_then(|s| s.get(qi)).and_then(|s| s.as_u64()).unwrap_or(0) as usize;
+            expected_search_stage.extend(rs.iter().take(n_ok).cloned());
             expected.extend(rs);
         }
         // actual: returned responses (+ file records when responses are not kept in memory)
@@ -230,17 +229,20 @@ pub fn judge(case: &Case, obs: &Obs) -> (Vec<Violation>, BTreeMap<String, u64>, 
                 let _ = recs;
             }
         }
-        // grid-search model: number of responses per original query
-        if case.world.input_plugins.iter().any(|p| p["type"] == json!("grid_search")) {
+        // grid-search model: one response for every query *after* expansion, whatever happens to an
+        // individual generated query in a later plugin or in the search
+        let grid_first = case.world.input_plugins.first().map_or(false, |p| p["type"] == json!("grid_search"));
+        if grid_first {
             for (qi, q) in batch.iter().enumerate() {
+                let well_formed = q.get("grid_search").and_then(|g| g.as_object()).map_or(false, |g| !g.is_empty() && g.values().all(|a| a.as_array().map_or(false, |a| !a.is_empty())));
+                if !well_formed || !q.is_object() {
+                    continue;
+                }
                 let want = expand_grid(q).len();
-                let is_plugin_err = stage.get(bi).and_then(|s| s.get(qi)).map_or(false, |s| s.is_string());
                 let got = refs[qi].as_ref().unwrap().len();
-                if !is_plugin_err && q.get("grid_search").is_some() {
-                    bump("grid_queries", 1);
-                    if want != got {
-                        v.push(Violation { class: "grid-count".into(), detail: format!("query {} expands to {} responses, Cartesian product has {}", q, got, want) });
-                    }
+                bump("grid_queries", 1);
+                if want != got {
+                    v.push(Violation { class: "grid-count".into(), detail: format!("query {} is answered by {} responses, its Cartesian product has {} (plugins {})", q, got, want, serde_json::to_string(&case.world.input_plugins).unwrap()) });
                 }
             }
         }
@@ -250,10 +252,8 @@ pub fn judge(case: &Case, obs: &Obs) -> (Vec<Violation>, BTreeMap<String, u64>, 
             let returned_expected: Vec<Value> = {
                 let mut x = vec![];
                 for (qi, _q) in batch.iter().enumerate() {
-                    let is_plugin_err = stage.get(bi).and_then(|s| s.get(qi)).map_or(false, |s| s.is_string());
-                    if is_plugin_err {
-                        x.extend(refs[qi].clone().unwrap());
-                    }
+                    let n_ok = stage.get(bi).and_then(|s| s.get(qi)).and_then(|s| s.as_u64()).unwrap_or(0) as usize;
+                    x.extend(refs[qi].clone().unwrap().into_iter().skip(n_ok));
                 }
                 x
             };
@@ -336,7 +336,7 @@ impl Check for C06 {
             "responses are matched by their request; costs and state compared with relative tolerance 1e-9".into(),
         ]
     }
-    fn judge_abnormal(&self, what: &str) -> Option<Violation> {
+    fn judge_abnormal(&self, _case: &Case, what: &str) -> Option<Violation> {
         if what.contains("deadlock") {
             Some(Violation { class: "deadlock".into(), detail: what.into() })
         } else if what.contains("budget") {
